@@ -55,6 +55,7 @@ RULE_TEXT = {
     "E6": "the reducer thread never dispatches or enqueues into its own queue synchronously",
     "N4": "with a Dispatch answer and no before_dispatch veto every received action reaches the subscriber loop (or an emptiness test of the list)",
     "CB1": "the reducer thread holds neither the state lock during any user callback nor the subscriber-list lock during on_notify",
+    "LK0": "every lock acquisition in the crate uses the blocking call (no try_lock/try_read/try_write)",
     "Q10": "no body running synchronously on the reducer thread constructs an Effect: a dequeued action is never re-posted by the store",
     "E8": "the store does not cap its worker pool below reducer + 2 workers (constant sizes only; the machine default is accepted)",
     "E7": "on the reducer thread the effects vector is only pushed to, measured, shown to the hooks and drained by the hand-over loop",
@@ -140,7 +141,7 @@ def _ch2_block(ctx, rep):
 
 PROPS = {
     "C01": {
-        "rules": R(Q.q1_one_queue_one_consumer, Q.q2_dequeue_sites,
+        "rules": R(r(DL.lk0_blocking_acquisitions, only=r"StoreImpl\\.(reducer-list|state-cell|sender-slot|pool-slot)|all-acquisitions|floor"), Q.q1_one_queue_one_consumer, Q.q2_dequeue_sites,
                    r(Q.q6_sequential_consumer, only=r"event-graph|receive events|REDUCE"),
                    r(P.pi1_one_pass_per_action, only=r"receive events|READ_STATE|WRITE_STATE|REDUCE"),
                    r(PI3_REDUCE, name="PI3"), P.pi4_reducer_threading, P.pi5_write_back,
@@ -162,7 +163,7 @@ PROPS = {
         "not_decided": ["linearizability / FIFO of the bounded channel (trusted)"],
     },
     "C03": {
-        "rules": R(S.su5_release_only_on_reducer_thread, r(P.pi1_one_pass_per_action, only=r"receive events|single-loop:NOTIFY"),
+        "rules": R(r(DL.lk0_blocking_acquisitions, only=r"StoreImpl\\.(subscriber-list|middleware-list)|all-acquisitions|floor"), S.su5_release_only_on_reducer_thread, r(P.pi1_one_pass_per_action, only=r"receive events|single-loop:NOTIFY"),
                    r(P.pi6_action_identity, only=r"NOTIFY"),
                    r(S.su1_mutators, drop=r"removal:clear|floor:clear"), P.n1_flag, P.n2_guard, P.n3_payload,
                    r(M.mw_table, only=r"(flow|flags):before_dispatch|arm-present:before_dispatch|MW2:.*before_dispatch|count:before_dispatch"),
@@ -174,7 +175,7 @@ PROPS = {
         "not_decided": ["chains mixing Dispatch and Keep beyond 'last decides'"],
     },
     "C04": {
-        "rules": R(Q.q3_enqueue_under_sender_lock, Q.q4_close,
+        "rules": R(r(DL.lk0_blocking_acquisitions, only=r"StoreImpl\\.(sender-slot|pool-slot|subscriber-list)|ChanneledWrapper|all-acquisitions|floor"), Q.q3_enqueue_under_sender_lock, Q.q4_close,
                    r(C.ch2_result_tells_enqueued, only=r"err-means-not-enqueued|ok-means-enqueued:BlockOnFull|floor"), r(_ch1_block, name="CH1"),
                    S.su3_shutdown_release, T.st1_stop_is_close_plus_join, T.st2_closed_means_err, T.st3_loop_exits,
                    T.st4_callbacks_live_in_the_loop, T.st5_idempotent, r(C.dr1_result_mapping, only=r"result-maps-Ok|result-ignored|floor"),
@@ -183,7 +184,7 @@ PROPS = {
         "not_decided": ["the 3 s timeout", "two racing shutdowns", "shutdown_join semantics (trusted)"],
     },
     "C05": {
-        "rules": R(r(_ch1_block, name="CH1"), r(_ch2_block, name="CH2"), C.ch5_capacity, Q.q2_dequeue_sites,
+        "rules": R(r(DL.lk0_blocking_acquisitions, only=r"StoreImpl\\.sender-slot|all-acquisitions|floor"), r(_ch1_block, name="CH1"), r(_ch2_block, name="CH2"), C.ch5_capacity, Q.q2_dequeue_sites,
                    B.b1_capacity_zero_rejected, Q.q5_synchronous_enqueue, Q.q9_dispatch_fails_only_when_closed,
                    Q.q3_enqueue_under_sender_lock,
                    r(DL.l2_wait_for, only=r"consumer-needs:.*held=StoreImpl\.sender-slot|floor")),
@@ -200,7 +201,7 @@ PROPS = {
         "exhaustive": True,
     },
     "C07": {
-        "rules": R(Q.q1_one_queue_one_consumer, Q.q6_sequential_consumer,
+        "rules": R(r(DL.lk0_blocking_acquisitions, only=r"StoreImpl\\.(reducer-list|middleware-list|subscriber-list)|all-acquisitions|floor"), Q.q1_one_queue_one_consumer, Q.q6_sequential_consumer,
                    r(P.pi1_one_pass_per_action, only=r"receive events|single-loop"),
                    r(P.pi2_phase_order, only=r"order:(HOOK|REDUCE|NOTIFY)[^<]*<(HOOK|REDUCE|NOTIFY)"), P.pi3_full_forward_iteration, T.st4_callbacks_live_in_the_loop,
                    r(S.su1_mutators, drop=r"removal:clear|floor:clear"), S.rg1_registration_order,
@@ -211,7 +212,7 @@ PROPS = {
         "not_decided": ["run-time thread identity (decided as: no callback site outside the reducer thread's synchronous call tree)"],
     },
     "C08": {
-        "rules": R(P.s1_single_writer, P.s2_initial_value, r(P.pi5_write_back, only=r"written-value-is-chain-result|write-back-unconditional|floor"),
+        "rules": R(r(DL.lk0_blocking_acquisitions, only=r"StoreImpl\\.state-cell|all-acquisitions|floor"), P.s1_single_writer, P.s2_initial_value, r(P.pi5_write_back, only=r"written-value-is-chain-result|write-back-unconditional|floor"),
                    Q.q1_one_queue_one_consumer, r(P.pb1_publish_before_notify, only=r"NOTIFY|floor"),
                    r(P.pi1_one_pass_per_action, only=r"receive events|at-most-once-per-pass:WRITE_STATE|every-pass-has:WRITE_STATE|count:WRITE_STATE"),
                    r(S.cb1_callbacks_hold_no_reentrant_lock, only=r"no-state-lock|floor")),
@@ -219,13 +220,13 @@ PROPS = {
         "not_decided": [],
     },
     "C09": {
-        "rules": R(r(S.su1_mutators, drop=r"append:|floor:push"), S.su2_unsubscribe, S.su3_shutdown_release, S.su5_release_only_on_reducer_thread, S.su6_snapshot_right_before_delivery, S.su4_delivery_atomic_with_membership,
+        "rules": R(r(DL.lk0_blocking_acquisitions, only=r"StoreImpl\\.subscriber-list|ChanneledWrapper|all-acquisitions|floor"), r(S.su1_mutators, drop=r"append:|floor:push"), S.su2_unsubscribe, S.su3_shutdown_release, S.su5_release_only_on_reducer_thread, S.su6_snapshot_right_before_delivery, S.su4_delivery_atomic_with_membership,
                    S.lc1_unsubscribe_sites, S.lc3_release_under_list_lock, r(X.ch_channeled_release, name="R2"), r(PI3_NOTIFY, name="PI3")),
         "explanation": "Static decision: unsubscribe removes exactly the identical element of its own store's list under the list lock and releases it once (SU1,SU2); whatever is still listed at shutdown is released once and the list cleared in the same critical section on every path to the end of the reducer thread (SU3); no third release path (LC1); every listed element is visited on each notifying pass (PI3); channeled release is idempotent (R2). Delivery atomic with membership (SU4) is a known finding. Releases run under the list lock in context (LC3), the snapshot is taken right before delivery (SU6), the shutdown release survives a poisoned list lock (SU3).",
         "not_decided": [],
     },
     "C10": {
-        "rules": R(X.ch_channeled, C.ch1_arm_purity, C.ch2_result_tells_enqueued, C.ch4_retry_identity,
+        "rules": R(r(DL.lk0_blocking_acquisitions, only=r"ChanneledWrapper|StoreImpl\\.subscriber-list|all-acquisitions|floor"), X.ch_channeled, C.ch1_arm_purity, C.ch2_result_tells_enqueued, C.ch4_retry_identity,
                    r(T.st4_callbacks_live_in_the_loop, only=r"channeled|floor"),
                    S.lc3_release_under_list_lock, T.st1_stop_is_close_plus_join,
                    r(S.su3_shutdown_release, only=r"every-exit-releases|floor:clear")),
@@ -233,7 +234,7 @@ PROPS = {
         "not_decided": ["run-time thread identity", "timing"],
     },
     "C11": {
-        "rules": R(Q.d1_same_store_dispatcher, T.st1_stop_is_close_plus_join, E.e1_collect, E.e2_drain, E.e3_never_inline, E.e4_effect_action,
+        "rules": R(r(DL.lk0_blocking_acquisitions, only=r"StoreImpl\\.(pool-slot|sender-slot)|all-acquisitions|floor"), Q.d1_same_store_dispatcher, T.st1_stop_is_close_plus_join, E.e1_collect, E.e2_drain, E.e3_never_inline, E.e4_effect_action,
                    E.e5_total_handover, E.e6_reducer_never_enqueues, E.e7_vector_untouched_between_hooks_and_drain, E.e8_pool_not_capped,
                    Q.q9_dispatch_fails_only_when_closed, r(_ch1_block, name="CH1"),
                    r(M.mw_table, only=r"store-leaves-effects-alone|count:before_effect")),
@@ -241,7 +242,7 @@ PROPS = {
         "not_decided": ["wall-clock non-interference of slow effects"],
     },
     "C12": {
-        "rules": R(r(P.pi6_action_identity, only=r"HOOK"), M.mw_table, M.mw5_hooks_on_every_action, P.mw1_hook_state_args,
+        "rules": R(r(DL.lk0_blocking_acquisitions, only=r"StoreImpl\\.middleware-list|all-acquisitions|floor"), r(P.pi6_action_identity, only=r"HOOK"), M.mw_table, M.mw5_hooks_on_every_action, P.mw1_hook_state_args,
                    r(E.e2_drain, only=r"MW3:|drain-until-empty|variant-covered|count:"), E.e7_vector_untouched_between_hooks_and_drain,
                    r(P.s1_single_writer, only=r"writers of the state cell|writer-is-reducer-thread|no-other-mutable-access"),
                    r(P.pi2_phase_order, only=r"order:(HOOK:before_reduce<REDUCE|REDUCE<HOOK:before_effect|HOOK:before_effect<HANDOVER|HOOK:before_dispatch<NOTIFY)"),
@@ -252,7 +253,7 @@ PROPS = {
         "exhaustive": True,
     },
     "C13": {
-        "rules": R(DL.l1_lock_order, DL.l2_wait_for, E.e6_reducer_never_enqueues,
+        "rules": R(DL.lk0_blocking_acquisitions, DL.l1_lock_order, DL.l2_wait_for, E.e6_reducer_never_enqueues,
                    T.st1_stop_is_close_plus_join, Q.q4_close, T.st3_loop_exits,
                    r(S.cb1_callbacks_hold_no_reentrant_lock, only=r"no-state-lock|floor"),
                    C.ch1_arm_purity, r(X.it_iterator, only=r"feeder-forwards-once:on_unsubscribe")),
@@ -260,7 +261,7 @@ PROPS = {
         "not_decided": ["progress inside crossbeam/rusty_pool/std", "a client thread playing two roles itself", "the 3 s timeout masking a hang"],
     },
     "C14": {
-        "rules": R(X.it_iterator, S.su5_release_only_on_reducer_thread, P.n3_payload, P.n2_guard,
+        "rules": R(r(DL.lk0_blocking_acquisitions, only=r"StoreImpl\\.subscriber-list|IteratorFeeder|StateIter|all-acquisitions|floor"), X.it_iterator, S.su5_release_only_on_reducer_thread, P.n3_payload, P.n2_guard,
                    r(S.su3_shutdown_release, only=r"every-exit-releases|release-after-loop|release-under-list-lock|floor|plain-forward|no-early-exit|in-loop|receiver-from"),
                    S.lc3_release_under_list_lock,
                    r(_ch1_block, name="CH1"), r(_ch2_block, name="CH2"), r(PI3_NOTIFY, name="PI3"),
@@ -272,13 +273,13 @@ PROPS = {
         "exhaustive": True,
     },
     "C15": {
-        "rules": R(X.ds_droppable, T.st1_stop_is_close_plus_join, Q.q4_close, T.st2_closed_means_err, S.su3_shutdown_release, T.st3_loop_exits,
+        "rules": R(r(DL.lk0_blocking_acquisitions, only=r"StoreImpl\\.(sender-slot|pool-slot|subscriber-list)|all-acquisitions|floor"), X.ds_droppable, T.st1_stop_is_close_plus_join, Q.q4_close, T.st2_closed_means_err, S.su3_shutdown_release, T.st3_loop_exits,
                    r(C.ch1_arm_purity, only=r"drop-latest-never-dequeues|paths-complete"), r(X.ch_channeled_release, name="R2")),
         "explanation": "Static decision: Drop for DroppableStore calls StoreImpl::stop on the wrapped Arc on every path, unconditionally (DS1), Deref hands out that same Arc (DS2), and stop() has the barrier/finality premises of C04 (ST1,Q4,ST2,ST3,SU3). The DropLatest arm never evicts a queued action for Exit (CH1); channeled release disconnects then joins (R2).",
         "not_decided": ["as C04"],
     },
     "C16": {
-        "rules": R(X.se_selector, X.se5_last_value_single_writer, r(PI3_NOTIFY, name="PI3"), P.n2_guard, M.n4_notify_phase_not_bypassed),
+        "rules": R(r(DL.lk0_blocking_acquisitions, only=r"SelectorSubscriber|all-acquisitions|floor"), X.se_selector, X.se5_last_value_single_writer, r(PI3_NOTIFY, name="PI3"), P.n2_guard, M.n4_notify_phase_not_bypassed),
         "explanation": "Decided completely (modulo PartialEq being the user's equality) by exhaustive path enumeration of SelectorSubscriber::on_notify: select once (SE1); first/changed => one on_change(selected, action) then store; equal => nothing (SE2); all under the last_value lock (SE3); initial None and plain registration (SE4). The ordinary notify phase reaches every listed subscriber on every notifying action (PI3,N2,N4).",
         "not_decided": [],
         "exhaustive": True,
